@@ -11,7 +11,7 @@ use std::collections::BTreeMap;
 pub struct C10;
 
 /// static prose corpus: (element kind, text). None of it is executable Mech code.
-const PROSE: [(&str, &str); 45] = [
+const PROSE: [(&str, &str); 55] = [
   ("paragraph", "This is a paragraph of ordinary prose that explains what follows."),
   ("paragraph", "Prose may mention names like x and y, numbers like 42, and punctuation: commas, semicolons; even (parentheses)."),
   ("paragraph", "A longer paragraph\nthat continues on a second line and a third\nline before it ends."),
@@ -49,6 +49,18 @@ const PROSE: [(&str, &str); 45] = [
   ("info-block", "(i)> An informational callout."),
   ("warning-block", "(!)> A warning callout."),
   ("question-block", "(?)> A question callout."),
+  // call-outs whose first line is a single word (the sigil followed by one identifier also reads as the start of a formula)
+  ("error-block", "(x)> An error callout."),
+  ("error-block", "(x)> Failed"),
+  ("info-block", "(i)> Note"),
+  ("warning-block", "(!)> Careful"),
+  ("question-block", "(?)> Why"),
+  ("success-block", "(✓)> Done"),
+  ("error-block", "(✗)> Broken"),
+  // Markdown tables without an alignment row, with one column and with bare words as cells
+  ("md-table", "| item |\n| apples |"),
+  ("md-table", "| item | count |\n| apples | 3 |"),
+  ("md-table", "| item |\n|------|\n| apples |"),
   ("paragraph", "A paragraph ending with a colon:"),
   ("paragraph", "Prose with unicode: café, naïve, 数学, and an emoji 🙂."),
   ("paragraph", "A sentence that mentions the define operator in words only."),
